@@ -452,3 +452,31 @@ func WriteToDisk(prog *Program, dir string) error {
 	}
 	return nil
 }
+
+// KeyCounts counts distinct diagnostics per file:line:code key. The same
+// diagnostic reported for several package variants (same position and text)
+// counts once; two diagnostics at different columns of a line count twice.
+func KeyCounts(ds []Diag, prefixes ...string) map[string]int {
+	out := map[string]int{}
+	seen := map[string]bool{}
+	for _, d := range ds {
+		if len(prefixes) > 0 {
+			ok := false
+			for _, p := range prefixes {
+				if strings.HasPrefix(d.Code, p) {
+					ok = true
+				}
+			}
+			if !ok {
+				continue
+			}
+		}
+		uk := fmt.Sprintf("%s:%d:%d:%s:%s", d.File, d.Line, d.Col, d.Code, d.Message)
+		if seen[uk] {
+			continue
+		}
+		seen[uk] = true
+		out[d.Key()]++
+	}
+	return out
+}
